@@ -227,5 +227,18 @@ T("cagrad_dual", ["C04"],
   "CAGrad with c ≥ 1: at an exact minimiser w of the dual objective F over the simplex (g_w ≠ 0), the direction d = g₀ + (c‖g₀‖/‖g_w‖) g_w has ⟨g_i, d⟩ ≥ F(w) ≥ 0 for every row.",
   "hopt: C04.cagrad.problem ([T] cvxpy/CLARABEL returns an exact minimiser of F over the simplex); d: C04.cagrad.post.")
 
+# ---------------- Scaling.lean
+H("diag_conj_mulVec", ["C09"], "(D G D) v = c∘(G (c∘v)) for D = diag(c).")
+T("pcStep_row_scaling", ["C09"],
+  "Relational invariant of PCGrad's inner loop for J' = diag(c)J: c∘cw' = c_i·cw is preserved by one update (same branch of the conflict test, consistently rescaled correction).",
+  "C09.pcgrad.rel (relational loop invariant: cw'[k]·c_k = c_i·cw[k], ip' = c_i c_j·ip).")
+T("pcgrad_inner_row_scaling", ["C09"], "The relation is preserved by the whole inner loop for any visiting order.", "C09.pcgrad.rel; same `torch.randperm` draws in both runs (fixed seed).")
+T("lin_pcgrad", ["C09"],
+  "PCGrad(diag(c) J) = Σ_i c_i p_i(J) for c > 0 and identical visiting orders: linear in the row scales.",
+  "C09.pcgrad.rel + C18.pcgrad.post (weights = Σ_i current_weights⁽ⁱ⁾, output = weights @ matrix).")
+T("unit_row_scale_invariant", ["C09"], "(c g)/‖c g‖ = g/‖g‖ for c > 0 (both 0 when g = 0).", "C09.config.rel: `units = nan_to_num(matrix / matrix.norm(dim=1))` is invariant under positive row scaling.")
+T("lin_config", ["C09"], "For a fixed unit target vector û, the ConFIG output on diag(c)J is Σ_i c_i ⟨g_i, û⟩ û: linear in c.", "C09.config.rel (unit_target_vector invariant), C17.config.post (length = Σ_i ⟨g_i, û⟩).")
+T("config_cos_eq", ["C17"], "ConFIG: cos(û_i, x) = w_i/‖x‖ for unit rows and x = pinv(U) w; all equal for w = 1.", "hunit: rows of `units` have norm 1 (non-zero rows); hUP: [T] pinv of a full-row-rank matrix is a right inverse.")
+
 json.dump(M, open(os.path.join(HERE, "theorems_meta.json"), "w", encoding="utf-8"), indent=1, ensure_ascii=False)
 print(len(M), "entries")
